@@ -27,9 +27,11 @@ namespace UF.Prog
 def exclusiveToks (field : String) : List String :=
   if field == "RuleStorage.cache" then ["Lock(RuleStorage.cacheMu)", "Lock(RuleStorage.cacheMu)/caller"]
   else if field == "FileRuleList.File" || field == "FileRuleList.buffer" then
-    ["Lock(FileRuleList.Mutex)", "Lock(FileRuleList.Mutex)/caller"]
+    ["Lock(FileRuleList.Mutex)", "Lock(FileRuleList.Mutex)/caller",
+     "Lock(FileRuleList.RWMutex)", "Lock(FileRuleList.RWMutex)/caller"]   -- the WRITE side of an embedded RWMutex is as good
   else if field == "NetworkRule.regex" || field == "NetworkRule.invalid" then
-    ["Lock(NetworkRule.Mutex)", "Lock(NetworkRule.Mutex)/caller"]
+    ["Lock(NetworkRule.Mutex)", "Lock(NetworkRule.Mutex)/caller",
+     "Lock(NetworkRule.RWMutex)", "Lock(NetworkRule.RWMutex)/caller"]
   else []
 
 /-- Further tokens under which a READ is properly locked: the read side of the cache's RWMutex.  (Not for
@@ -85,8 +87,8 @@ def sectionOK (s : LockSection) : Bool :=
 def modelSections : List (String × List String × List String × List String) := [
   ("get", ["RLock(RuleStorage.cacheMu)", "Lock(RuleStorage.cacheMu)"], ["RuleStorage.cache"], []),
   ("put", ["Lock(RuleStorage.cacheMu)"], ["RuleStorage.cache"], ["RuleStorage.cache"]),
-  ("read", ["Lock(FileRuleList.Mutex)"], ["FileRuleList.File", "FileRuleList.buffer"], []),
-  ("prep", ["Lock(NetworkRule.Mutex)"], ["NetworkRule.regex", "NetworkRule.invalid"],
+  ("read", ["Lock(FileRuleList.Mutex)", "Lock(FileRuleList.RWMutex)"], ["FileRuleList.File", "FileRuleList.buffer"], []),
+  ("prep", ["Lock(NetworkRule.Mutex)", "Lock(NetworkRule.RWMutex)"], ["NetworkRule.regex", "NetworkRule.invalid"],
     ["NetworkRule.regex", "NetworkRule.invalid"])
 ]
 
@@ -97,6 +99,35 @@ def hasSection (secs : List LockSection) (m : String × List String × List Stri
 /-- Does the section use the file of a file list (position or buffer)? -/
 def touchesFile (s : LockSection) : Bool :=
   s.2.2.any (fun a => a.1 == "FileRuleList.File" || a.1 == "FileRuleList.buffer")
+
+/-! ### Bridge to the vocabulary of `actionTable` (Model/Prog.lean)
+
+  `actionTable` writes fields without their struct (`cache`) and locks as the old receiver-only extractor printed
+  them (`Lock(cacheMu)`, `Lock(recv)` for the embedded mutex of the receiver).  The typed tables say
+  `RuleStorage.cache`, `Lock(RuleStorage.cacheMu)`, `Lock(FileRuleList.Mutex)`; a `/caller` suffix means the lock is
+  held at every call site of the helper the access sits in. -/
+
+def shortField (field : String) : String :=
+  if field == "RuleStorage.cache" then "cache"
+  else if field == "FileRuleList.File" then "File"
+  else if field == "FileRuleList.buffer" then "buffer"
+  else if field == "NetworkRule.regex" then "regex"
+  else if field == "NetworkRule.invalid" then "invalid"
+  else "?"
+
+def shortLock (tok : String) : String :=
+  if tok == "Lock(RuleStorage.cacheMu)" || tok == "Lock(RuleStorage.cacheMu)/caller" then "Lock(cacheMu)"
+  else if tok == "RLock(RuleStorage.cacheMu)" || tok == "RLock(RuleStorage.cacheMu)/caller" then "RLock(cacheMu)"
+  else if tok == "Lock(FileRuleList.Mutex)" || tok == "Lock(FileRuleList.Mutex)/caller" ||
+      tok == "Lock(FileRuleList.RWMutex)" || tok == "Lock(FileRuleList.RWMutex)/caller" ||
+      tok == "Lock(NetworkRule.Mutex)" || tok == "Lock(NetworkRule.Mutex)/caller" ||
+      tok == "Lock(NetworkRule.RWMutex)" || tok == "Lock(NetworkRule.RWMutex)/caller" then "Lock(recv)"
+  else "?"
+
+/-- The lock of an extracted section serves for a row of the action table: the same lock, or the write side where
+    the row asks for the read side of the same RWMutex (a `get` under `cacheMu.Lock()` is still one atomic lookup). -/
+def lockServes (tok rowLock : String) : Bool :=
+  shortLock tok == rowLock || (rowLock == "RLock(cacheMu)" && shortLock tok == "Lock(cacheMu)")
 
 /-- The struct types whose fields (other than the guarded ones) are never written once the object has been
     constructed: group J's `frozenTypes` plus the rule objects (the model's `R`: `truth idx` is a VALUE, `pre`,
